@@ -290,6 +290,11 @@ func (x *Exec) sentinel(st *State, g *ssa.Global) string {
 	if _, ok := x.reg.byName[name]; !ok {
 		x.reg.declare(name, "Int")
 		x.reg.axiom(name, "plain", fmt.Sprintf("(and (not (= %s 0)) (forall ((t Int)) (! (= (errIs %s t) (= t %s)) :pattern ((errIs %s t)))))", name, name, name, name))
+		// a sentinel is a package-level value: it existed before the function under verification was entered
+		// (so it differs from every error value created since, e.g. by fmt.Errorf)
+		x.useTop()
+		x.reg.declare("|alloc@0|", "Int")
+		x.reg.axiom(name, "old", fmt.Sprintf("(and (= (top %s) %s) (<= %s |alloc@0|))", name, name, name))
 	}
 	for _, o := range st.sents {
 		if o == name {
